@@ -10,6 +10,8 @@ from .. import rtfamily as R
 
 SMALL_TYPES = ["u8", "i8", "u16", "bool", "char", "str", "dstr", "bytes", "dur", "bigint", "uuid", "i32"]
 F14 = "sequence of zero-width elements loops `count` times without consuming input (Vec<()> / LinkedList<PhantomData>): 5 input bytes, 2^31-1 iterations"
+F27 = ("decoding a recursive derived type recurses once per nesting level with ~700 bytes of stack each: an 18 KB input "
+       "nested 3000 deep aborts the process (stack overflow) on a default-stack thread")
 F14_WITNESS = {"env": "-", "cmd": "dec", "ty": "(ll unit)", "hex": "feffffff0f"}
 
 
@@ -194,7 +196,25 @@ def check(rep, tier, seed):
             rep.known(F14)
         else:
             bad.append((F14_WITNESS, "release", "hang", "hang"))
-    C.proof_coverage(rep, ob, "C05", ["known finding F14 (zero-width sequence elements): types containing such a sequence "
+    # nesting depth: shallow and moderately deep inputs must decode; the abort on very deep ones is known finding F27
+    deep = {}
+    f27_listed = any(k.get("id") == "F27" for k in known.get("findings", []))
+    for n, where in ((100, "main"), (100, "thread"), (1000, "main"), (1000, "thread"), (10000, "thread"), (100000, "main")):
+        p = C.run([harness, "deep", str(n), where], timeout=120, check=False)
+        out = (p.stdout or "").strip().splitlines()
+        res = out[-1] if out and out[-1].startswith("DEEP") else f"abort rc={p.returncode}"
+        deep[f"{n}/{where}"] = res
+        if res != f"DEEP {n} ok":
+            if n >= 3000 and f27_listed:
+                rep.known(F27)
+            else:
+                bad.append(({"env": "(catalogue)", "cmd": "dec", "ty": "List(static-catalogue)", "hex": f"{n} levels, {where} stack",
+                             "_len": 6 * n + 6}, "release", res,
+                            f"decoding List nested {n} levels deep on the {where} stack does not return: {res}"))
+    rep.coverage["nesting_depth_probes"] = deep
+    C.proof_coverage(rep, ob, "C05", ["known finding F27 (stack exhaustion beyond ~3000 nesting levels): the model has no stack; "
+                                      "depth probes at 100 and 1000 levels must succeed, deeper ones are reported as known",
+                                      "known finding F14 (zero-width sequence elements): types containing such a sequence "
                                       "are excluded from the malformed stream; the witness is re-run on every check"])
     rep.coverage.update({
         "evaluations": 2 * len(kc) + len(cases), "distinct_nontrivial": len(set(lines)),
